@@ -179,11 +179,16 @@ def main():
           "append_compaction_checkpoints_best_effort_v1 writes exactly checkpoint_created frames")
     i_ck = pb.find("self.append_compaction_checkpoints_best_effort_v1(event);")
     need2(0 <= i_flush < i_ck, "append_best_effort: full sidecar line flushed before the checkpoint sidecar line is written")
-    for name, call in (("latest_compaction_checkpoint_for_compile_v1", "latest_compaction_checkpoint_before_or_at_seq_v1(continuity_id,from_seq)"),
-                       ("hierarchical_compaction_checkpoints_for_compile_v1", "hierarchical_compaction_checkpoints_before_or_at_seq_v1(continuity_id,from_seq,max_levels,Some(COMPACTION_SUMMARY_KIND_CUMULATIVE_V1),)")):
+    # (either the lookups as they are, or with the S9 repair of corpus/C08/s9_repair.patch: *_visible_at_v1(.., Some(from_seq)))
+    for name, calls in (("latest_compaction_checkpoint_for_compile_v1",
+                         ("latest_compaction_checkpoint_before_or_at_seq_v1(continuity_id,from_seq)",
+                          "latest_compaction_checkpoint_visible_at_v1(continuity_id,from_seq,Some(from_seq))")),
+                        ("hierarchical_compaction_checkpoints_for_compile_v1",
+                         ("hierarchical_compaction_checkpoints_before_or_at_seq_v1(continuity_id,from_seq,max_levels,Some(COMPACTION_SUMMARY_KIND_CUMULATIVE_V1),)",
+                          "hierarchical_compaction_checkpoints_visible_at_v1(continuity_id,from_seq,Some(from_seq),max_levels,Some(COMPACTION_SUMMARY_KIND_CUMULATIVE_V1),)"))):
         fb_ = flat_of(fn_body0(co, name))
-        need2(("letcached=ifself.stream_cache.compaction_checkpoint_caches_behind_head_v1(continuity_id){Ok(None)}else{self.stream_cache.%s};ifletOk(Some(" % call) in fb_
-              and fb_.count("_before_or_at_seq_v1(") == 1,
+        need2(any(("letcached=ifself.stream_cache.compaction_checkpoint_caches_behind_head_v1(continuity_id){Ok(None)}else{self.stream_cache.%s};ifletOk(Some(" % call) in fb_ for call in calls)
+              and len(re.findall(r"self\.stream_cache\.(?:latest|hierarchical)_compaction_checkpoints?_\w+\(", fb_)) == 1,
               "%s: the cache is asked only when it does not lag behind the head" % name)
     # ---- the mr seek window hands over only a window that is complete or holds `limit` messages (S26 fix)
     window_sound = ("iffound_messages>=message_limit||scan.complete{selected_rev.reverse();returnOk(Some(ContinuityWindow{events:selected_rev,from_seq,from_message_id:Some(anchor_message_id.to_string()),}));}ifbackscan_bytes>=MAX_BACKSCAN_BYTES{returnOk(None);}" in wb
